@@ -95,6 +95,7 @@ func (q *UnsafeQuery) nextArchetype() bool {
 
 		q.tables = archetype.GetTables(q.relations)
 		q.cursor.table = -1
+		q.table = nil
 		if q.nextTable() {
 			return true
 		}
